@@ -41,6 +41,12 @@ Theorem C19_table : forall text, md_table_indent text = true ->
 Proof. exact md_table_indent_spec. Qed.
 Print Assumptions C19_table.
 
+(* ... exactly: two to five whitespace characters, then '|' (the separator-row test comes on top) *)
+Theorem C19_table_exact : forall text, md_table_indent text = true <->
+  exists ws r, text = ws ++ PIPE :: r /\ forallb is_space ws = true /\ (2 <= length ws <= 5)%nat.
+Proof. exact md_table_indent_exact. Qed.
+Print Assumptions C19_table_exact.
+
 (* a list item: blanks, one of '*', '+', '-', blanks, then text -- a step whose keyword is the first listed keyword
    that prefixes the text (which does not begin with a blank: no step keyword does), whose text is the trimmed rest,
    at the column of the keyword; any keyword list *)
